@@ -17,6 +17,7 @@ import z3
 from . import values as V
 from .core import PyRaise
 from .values import (
+    SODict,
     SBool,
     SBytes,
     SExc,
@@ -70,6 +71,15 @@ def iteration(ip: Any, it: Any) -> Any:
         return (snap.length, snap.getf)
     if isinstance(it, SymIter):
         return (it.length, it.at)
+    if isinstance(it, SODict):
+        snap = it.items.snapshot()
+        return (snap.length, lambda k: snap.getf(k)[0])
+    if isinstance(it, SObj) and it.kind == "iterator":
+        seq = it.fields["seq"]
+        pos = it.fields["pos"]
+        if isinstance(seq, list):
+            return seq[pos:]
+        return (seq[0] - pos, lambda k: seq[1](k + pos))
     if isinstance(it, (SStr,)):
         return (z3.Length(it.t), lambda k: SStr(z3.SubString(it.t, k, 1)))
     if isinstance(it, SBytes):
@@ -350,6 +360,8 @@ def contains(ip: Any, container: Any, item: Any) -> Any:
         return contains(ip, list(container), item)
     if isinstance(container, SMap):
         return container.has(item)
+    if isinstance(container, SODict):
+        return container.has(item)
     if isinstance(container, SList):
         c = container.snapshot()
         return V.ExistsInt(lambda i: V.And(i >= 0, SBool(i.t < c.length), V.eq(c.get(i), item)))
@@ -421,6 +433,10 @@ def subscript(ip: Any, obj: Any, idx: Any) -> Any:
         if not S.fork(obj.has(idx)):
             raise raise_(ip, KeyError, idx)
         return obj.val(idx)
+    if isinstance(obj, SODict):
+        if not S.fork(obj.has(idx)):
+            raise raise_(ip, KeyError, idx)
+        return obj.val(obj.index_of(idx))
     if isinstance(obj, SObj):
         h = S.handlers.get(f"{obj.kind}.__getitem__")
         if h is not None:
@@ -474,6 +490,9 @@ def store_subscript(ip: Any, obj: Any, idx: Any, v: Any) -> None:
     if isinstance(obj, SMap):
         obj.store(idx, v)
         return
+    if isinstance(obj, SODict):
+        odict_store(ip, obj, idx, v)
+        return
     if isinstance(obj, SObj):
         h = ip.S.handlers.get(f"{obj.kind}.__setitem__")
         if h is not None:
@@ -501,6 +520,11 @@ def del_subscript(ip: Any, obj: Any, idx: Any) -> None:
     if isinstance(obj, SList):
         k = norm_index(ip, idx, obj.length, "list assignment")
         obj.pop_at(k)
+        return
+    if isinstance(obj, SODict):
+        if not ip.S.fork(obj.has(idx)):
+            raise raise_(ip, KeyError, idx)
+        obj.items.pop_at(obj.index_of(idx))
         return
     if isinstance(obj, SObj):
         h = ip.S.handlers.get(f"{obj.kind}.__delitem__")
@@ -665,6 +689,8 @@ def b_len(ip: Any, x: Any) -> Any:
     if isinstance(x, SMap):
         return SInt(x.size)
     if isinstance(x, SymIter):
+        return SInt(x.length)
+    if isinstance(x, SODict):
         return SInt(x.length)
     if isinstance(x, SObj):
         h = ip.S.handlers.get(f"{x.kind}.__len__")
@@ -1059,18 +1085,28 @@ def b_bytes(ip: Any, x: Any = b"", *a: Any) -> Any:
 
 
 def b_iter(ip: Any, x: Any) -> Any:
-    raise Unsupported("iter()")
+    return SObj(None, kind="iterator", seq=iteration(ip, x), pos=0)
 
 
 def b_next(ip: Any, it: Any, *default: Any) -> Any:
-    seq = iteration(ip, it) if not isinstance(it, (SObj,)) else None
-    if isinstance(seq, list):
-        if seq:
-            return seq[0]
+    if isinstance(it, SObj) and it.kind == "iterator":
+        seq, pos = it.fields["seq"], it.fields["pos"]
+        if isinstance(seq, list):
+            if pos < len(seq):
+                it.fields["pos"] = pos + 1
+                return seq[pos]
+        else:
+            if ip.S.fork(SBool(seq[0] > pos)):
+                it.fields["pos"] = pos + 1
+                return seq[1](z3.IntVal(pos))
         if default:
             return default[0]
         raise raise_(ip, StopIteration)
-    raise Unsupported("next()")
+    if isinstance(it, SObj):
+        h = ip.S.handlers.get(f"{it.kind}.__next__")
+        if h is not None:
+            return h(ip.S, it)
+    raise Unsupported("next() of a non-iterator")
 
 
 def b_ord(ip: Any, c: Any) -> Any:
@@ -1185,6 +1221,8 @@ def fresh_like(v: Any, name: str) -> Any:
         return V.ListShape(v.shape).fresh(name)
     if isinstance(v, SMap):
         return SMap.fresh(name, v.key_shape, v.val_shape, ordered=v.rank_f is not None)
+    if isinstance(v, SODict):
+        return V.fresh_like_odict(v, name)
     return V.shape_of(v).fresh(name)
 
 
@@ -1200,7 +1238,7 @@ def havoc_object(ip: Any, obj: Any, dotted: str, hints: dict[str, Any]) -> None:
             pass
         if isinstance(holder, SObj) and field in holder.fields:
             cur = holder.fields[field]
-            if isinstance(cur, (SList, SMap)):
+            if isinstance(cur, (SList, SMap, SODict)):
                 new = fresh_like(cur, dotted.replace(".", "_"))
                 cur.__dict__.update(new.__dict__)
             else:
@@ -1210,7 +1248,7 @@ def havoc_object(ip: Any, obj: Any, dotted: str, hints: dict[str, Any]) -> None:
         if isinstance(holder, SObj):
             return  # e.g. obj.method() that is a MUTATOR-named handler call: handled by the handler's own ghost state
         raise Unsupported(f"loop mutates {dotted} of a concrete object; model it in the contract view")
-    if isinstance(obj, (SList, SMap)):
+    if isinstance(obj, (SList, SMap, SODict)):
         new = fresh_like(obj, dotted)
         obj.__dict__.update(new.__dict__)
         return
@@ -1300,6 +1338,8 @@ def call_sym_method(ip: Any, obj: Any, name: str, args: list[Any], kwargs: dict[
         return list_method(ip, obj, name, args, kwargs)
     if isinstance(obj, SMap):
         return map_method(ip, obj, name, args, kwargs)
+    if isinstance(obj, SODict):
+        return odict_method(ip, obj, name, args, kwargs)
     if isinstance(obj, SInt):
         if name == "bit_length":
             raise Unsupported("int.bit_length on symbolic")
@@ -1510,6 +1550,66 @@ def map_method(ip: Any, obj: SMap, name: str, args: list[Any], kwargs: dict[str,
         obj.delete(k)
         return (k, v)
     raise Unsupported(f"dict.{name} on a symbolic map")
+
+
+def odict_store(ip: Any, d: SODict, k: Any, v: Any) -> None:
+    if ip.S.fork(d.has(k)):
+        p = d.index_of(k)
+        d.items.set_at(p, (k, v))
+    else:
+        d.items.append((k, v))
+
+
+def odict_method(ip: Any, d: SODict, name: str, args: list[Any], kwargs: dict[str, Any]) -> Any:
+    S = ip.S
+    if name == "get":
+        if S.fork(d.has(args[0])):
+            return d.val(d.index_of(args[0]))
+        return args[1] if len(args) > 1 else kwargs.get("default")
+    if name == "pop":
+        if S.fork(d.has(args[0])):
+            p = d.index_of(args[0])
+            v = d.val(p)
+            d.items.pop_at(p)
+            return v
+        if len(args) > 1:
+            return args[1]
+        raise raise_(ip, KeyError, args[0])
+    if name == "popitem":
+        last = kwargs.get("last", args[0] if args else True)
+        if not S.fork(SBool(d.length > 0)):
+            raise raise_(ip, KeyError, "dictionary is empty")
+        return d.items.pop_at(SInt(d.length - 1) if last else 0)
+    if name == "move_to_end":
+        if kwargs.get("last", args[1] if len(args) > 1 else True) is not True:
+            raise Unsupported("move_to_end(last=False)")
+        if not S.fork(d.has(args[0])):
+            raise raise_(ip, KeyError, args[0])
+        p = d.index_of(args[0])
+        item = d.items.pop_at(p)
+        d.items.append(item)
+        return None
+    if name == "items":
+        snap = d.items.snapshot()
+        return SymIter(snap.length, snap.getf)
+    if name == "keys":
+        snap = d.items.snapshot()
+        return SymIter(snap.length, lambda k: snap.getf(k)[0])
+    if name == "values":
+        snap = d.items.snapshot()
+        return SymIter(snap.length, lambda k: snap.getf(k)[1])
+    if name == "clear":
+        d.items.length = z3.IntVal(0)
+        return None
+    if name == "copy":
+        return d.snapshot()
+    if name == "setdefault":
+        if S.fork(d.has(args[0])):
+            return d.val(d.index_of(args[0]))
+        dv = args[1] if len(args) > 1 else None
+        d.items.append((args[0], dv))
+        return dv
+    raise Unsupported(f"dict.{name} on a symbolic ordered dict")
 
 
 # ======================================================================================
